@@ -130,7 +130,12 @@ func VH_C13_signed_documents() {
 	var doc *etree.Document
 	var err error
 	var rest []string
-	switch vChoice("kind", 3) {
+	kind := vChoice("kind", 3)
+	if kind != 0 {
+		// logout messages are signed whether or not AuthnRequest signing is switched on
+		sp.SignAuthnRequests = vFlag("signAuthnRequests")
+	}
+	switch kind {
 	case 0:
 		doc, err = sp.BuildAuthRequestDocument()
 		rest = []string{"samlp:NameIDPolicy"}
